@@ -476,8 +476,12 @@ def next_index(ck, S, RULE):
         ck.ob(RULE, sitestr(fi, rs[0]), k >= 1, "returns the maximum + %d" % k if k >= 1 else "returns the maximum + %d: the highest existing rotated name is reused (rename then fails or, with .gz present, numbering collides)" % k,
               key="findNextIndexForDate|not-max-plus-one")
         mdecl = mx[0]
-        ok0 = const_int(locs[mdecl].get("init")) == 0
-        ck.ob(RULE, sitestr(fi), ok0, "the maximum starts at 0 (first index is 1)", key="findNextIndexForDate|start")
+        ci0 = const_int(locs[mdecl].get("init")) if isinstance(locs[mdecl].get("init"), dict) else None
+        # a maximum that is not started from a constant (std::accumulate, std::max_element, a helper) is not a violation: the fold is then not followed
+        ok0 = (ci0 == 0) if ci0 is not None else None
+        msg0 = "the maximum starts at 0 (first index is 1)" if ok0 else ("the maximum starts at %d: the first rotated file of a day gets index %d" % (ci0, ci0 + 1)) if ok0 is False else \
+            "the maximum is computed by %s, which this rule does not follow" % describe(locs[mdecl].get("init"))[:60]
+        ck.ob(RULE, sitestr(fi), ok0, msg0, key="findNextIndexForDate|start")
         ups = [n for n in fi.find(lambda n: n.get("k") == "binop" and n.get("op") == "=" and is_ref_to(n.get("lhs"), mdecl))]
         loops_all = find_loops(fi)
         okm = None
